@@ -80,6 +80,11 @@ def priority_cases(tier: str) -> list[int]:
 def gen_case(idx: int, seed: int, tier: str) -> Any:
     p = plan(tier)
     rng = case_rng(PROPERTY, seed, idx)
+    if idx < p["n_prog"] and idx % 100 == 37:
+        # a *big* context: 64-300 callbacks registered in the block, and a chain of up to 160 more in which each one is registered by
+        # the one before it while the teardown is already running
+        return {"kind": "bulk", "backend": rng.choice(["asyncio", "trio"]), "n": rng.choice([64, 65, 100, 129, 257, 300]),
+                "chain": rng.choice([0, 3, 101, 160]), "leave": rng.choice(["return", "raise", "cancel", "cancel"]), "nested": rng.random() < 0.5}
     if idx < p["n_prog"]:
         return {"kind": "program", "prog": e3.gen_program(rng, max_cbs=8 if tier == "quick" or rng.random() < 0.9 else 40)}
     return {"kind": "sweep", "prog": e3.gen_program(rng, max_cbs=5, for_sweep=True), "only": None}
@@ -90,7 +95,116 @@ def _run_one(prog: dict[str, Any]) -> tuple[e3.Run, list[dict[str, Any]]]:
     return run, e3.check_trace(run)
 
 
+class _Boom(Exception):
+    pass
+
+
+async def bulk_scenario(case: dict[str, Any], out: dict[str, Any]) -> None:
+    import functools
+
+    import anyio
+
+    from asphalt.core import Context, add_teardown_callback
+
+    n, chain = case["n"], case["chain"]
+    ran: list[Any] = []
+    got: dict[Any, Any] = {}
+    boom = _Boom("the block failed")
+
+    async def block(ctx: Any) -> None:
+        def plain(i: int) -> None:
+            ran.append(i)
+
+        async def with_exc(i: int, exc: Any) -> None:
+            got[i] = exc
+            ran.append(i)
+
+        def link(k: int) -> None:
+            # the k-th link of the chain: registers the next one while the teardown is running
+            ran.append(("chain", k))
+            if k < chain:
+                ctx.add_teardown_callback(functools.partial(link, k + 1))
+
+        for i in range(n):
+            if i % 3 == 0:
+                ctx.add_teardown_callback(functools.partial(plain, i))
+            elif i % 3 == 1:
+                ctx.add_resource(object(), f"res{i}", teardown_callback=functools.partial(plain, i))
+            else:
+                add_teardown_callback(functools.partial(with_exc, i), pass_exception=True)
+        if chain:
+            ctx.add_teardown_callback(functools.partial(link, 1))
+        if case["leave"] == "raise":
+            raise boom
+
+    outcome: Any = None
+    ctx_ref: list[Any] = []
+
+    async def main() -> None:
+        nonlocal outcome
+        with anyio.CancelScope() as scope:
+            try:
+                async with Context() as ctx:
+                    ctx_ref.append(ctx)
+                    await block(ctx)
+                    if case["leave"] == "cancel":
+                        scope.cancel()
+                        await anyio.sleep(1)
+                outcome = ("returned",)
+            except Exception as e:
+                outcome = ("raised", e)
+        if scope.cancelled_caught:
+            outcome = ("cancelled",)
+
+    if case["nested"]:
+        async with Context():
+            await main()
+    else:
+        await main()
+    V = out["violations"]
+
+    def bad(key: str, msg: str) -> None:
+        if not any(v["key"] == key for v in V):
+            V.append({"key": key, "msg": msg, "witness": {"case": case, "ran_first_10": repr(ran[:10]), "ran_last_10": repr(ran[-10:]), "n_ran": len(ran)}})
+
+    expected = [("chain", k) for k in range(1, chain + 1)] + list(range(n - 1, -1, -1))
+    missing = [x for x in expected if x not in ran]
+    if missing:
+        bad("teardown-missed", f"{len(missing)} of {len(expected)} teardown callbacks of a context with {n} callbacks (+ a chain of {chain} registered during the teardown) "
+                               f"never ran after the block was left by {case['leave']}; first missing: {missing[:3]}")
+    elif len(ran) != len(expected):
+        bad("teardown-twice", f"{len(ran)} invocations for {len(expected)} callbacks")
+    elif ran != expected:
+        first = next(i for i, (a, b) in enumerate(zip(ran, expected)) if a != b)
+        bad("teardown-order", f"callbacks did not run in reverse order of registration: position {first} ran {ran[first]}, expected {expected[first]}")
+    want_exc = boom if case["leave"] == "raise" else None
+    wrong = [i for i, e in got.items() if (e is not want_exc) and not (case["leave"] == "cancel" and isinstance(e, BaseException))]
+    if wrong:
+        bad("teardown-arg", f"pass_exception callbacks {wrong[:3]} received {got[wrong[0]]!r}")
+    want = {"return": ("returned",), "raise": ("raised", boom), "cancel": ("cancelled",)}[case["leave"]]
+    if outcome is None or outcome[0] != want[0] or (want[0] == "raised" and outcome[1] is not boom):
+        bad("teardown-outcome", f"the block was left by {case['leave']} and no callback raised, yet the caller observed {outcome!r}")
+    if ctx_ref and not ctx_ref[0].closed:
+        bad("teardown-closed-flag", "the context does not report itself closed")
+    c = out["counters"]
+    c["bulk_contexts_with_64plus_callbacks"] = 1
+    if chain > 100:
+        c["bulk_contexts_with_a_chain_of_100plus_callbacks_registered_during_teardown"] = 1
+    if case["leave"] == "cancel":
+        c["bulk_contexts_left_by_cancellation"] = 1
+
+
 def run_case(case: Any) -> dict[str, Any]:
+    if case["kind"] == "bulk":
+        from vkit.vtime import VirtualDeadlock, run_virtual
+
+        out: dict[str, Any] = {"violations": [], "counters": {}}
+        try:
+            run_virtual(case["backend"], bulk_scenario, case, out)
+        except VirtualDeadlock as e:
+            out["violations"].append({"key": "teardown-deadlock", "msg": str(e), "witness": {"case": case}})
+        return {"violations": out["violations"], "sig": ("bulk", case["n"], case["chain"], case["leave"], case["nested"], case["backend"]), "nontrivial": True,
+                "counters": out["counters"], "sample": None}
     counters: dict[str, int] = {}
     violations: list[dict[str, Any]] = []
     sigs: list[Any] = []
@@ -146,7 +260,7 @@ LEVEL_TEXT = (
 )
 LEVEL_NOTE = (
     "Trusted: the probes/oracle in engines/e3_teardown.py and anyio/trio themselves. Callbacks that block for ever or shield "
-    "themselves are not generated; at most 40 callbacks per context."
+    "themselves are not generated; at most 40 callbacks per context in the random programs, 64-300 (+ chains of up to 160 registered during the teardown) in the bulk cases."
 )
 TECHNIQUE = "offline trace checker over probe events from fault-injected executions (exceptions x cancellation sweep), virtual time, both backends"
 DESIGN_REF = "DESIGN.md section 3, C01"
